@@ -79,7 +79,6 @@ class BaseValidator:
         except TypeError as e:
             raise ValidationError(str(e)) from e
 
-    @ft.lru_cache(None)
     def signature(self, method: MethodType, exclude: Tuple[str, ...]) -> inspect.Signature:
         """
         Returns method signature.
@@ -89,10 +88,25 @@ class BaseValidator:
         :returns: signature
         """
 
+        if inspect.ismethod(method):
+            # bound methods are created per instance (per request for class based views), so the signature
+            # is cached by the underlying function not to retain the instance and everything it refers to
+            return self._signature(method.__func__, exclude, True)
+
+        return self._signature(method, exclude, False)
+
+    @ft.lru_cache(None)
+    def _signature(self, method: MethodType, exclude: Tuple[str, ...], bound: bool) -> inspect.Signature:
         signature = inspect.signature(method)
 
+        parameters = list(signature.parameters.values())
+        if bound and parameters and parameters[0].kind in (
+            inspect.Parameter.POSITIONAL_ONLY, inspect.Parameter.POSITIONAL_OR_KEYWORD,
+        ):
+            parameters = parameters[1:]
+
         method_parameters: List[inspect.Parameter] = []
-        for param in signature.parameters.values():
+        for param in parameters:
             if param.name not in exclude and not self._exclude_param(param.name, param.annotation, param.default):
                 method_parameters.append(param)
 
